@@ -54,6 +54,8 @@ class C07(Check):
         import pydl.pydlutils.sdss as S
         self.S = S
         self._saved = S.maskbits
+        for n in ('sdss_flagval', 'sdss_flagname', 'sdss_flagexist'):
+            self.brd.attach(self.rec, S, n, every=2, own=True)
         for n in ('set_maskbits', 'sdss_flagval', 'sdss_flagname', 'sdss_flagexist'):
             self.rec.wrap(S, n)
         for f in (S.set_maskbits, S.sdss_flagval, S.sdss_flagname, S.sdss_flagexist):
